@@ -439,7 +439,7 @@ func (o *WireOracles) checkEndpointView() {
 		// C20 on real connections: the endpoint's own account of bytes in flight and congestion window. New ack-eliciting
 		// data goes out only while the bytes in flight are below the window: they may pass it by at most one packet, unless
 		// a probe timeout fired or a loss shrank the window below what is in flight (judged again once they are back under it)
-		prevInFlight, excused := 0, false
+		prevInFlight, cwnd, excused := 0, 0, false
 		ql.mu.Lock()
 		for _, e := range ql.Events {
 			switch ev := e.Ev.(type) {
@@ -457,18 +457,30 @@ func (o *WireOracles) checkEndpointView() {
 					o.report("C05", "an endpoint processed a packet although every copy delivered to it had been modified in transit", "%s logged %s pn %d as received; the only delivered copy was damaged: %s", dirName(side), k.typ, k.pn, p.String())
 				}
 			case qlog.MetricsUpdated:
+				if os.Getenv("VERIF_DUMP_METRICS") != "" {
+					o.res.Logf("metrics %s %d: cwnd %d in flight %d excused %v", dirName(side), e.AtNS/1000, ev.CongestionWindow, ev.BytesInFlight, excused)
+				}
+				// (the event carries only the values that changed: zero means "as before")
+				if ev.CongestionWindow != 0 {
+					cwnd = ev.CongestionWindow
+				}
+				if ev.BytesInFlight != 0 && cwnd != 0 {
+					if ev.BytesInFlight <= cwnd {
+						excused = false
+					} else if !excused && ev.BytesInFlight >= prevInFlight+500 && ev.BytesInFlight > cwnd+1500 {
+						// (only packets of some size: an ACK-only packet that gets a PING added now and then, or a small control
+						// frame, is not new data)
+						o.report("C20", "a real connection released new data although its bytes in flight had reached the congestion window", "%s at %v: %d bytes in flight (before: %d), congestion window %d, no probe timeout or loss since they were last below it", dirName(side), time.Duration(e.AtNS), ev.BytesInFlight, prevInFlight, cwnd)
+						excused = true
+					}
+					prevInFlight = ev.BytesInFlight
+				}
 				if ev.CongestionWindow != 0 {
 					o.res.Probe("qlog-cwnd-sample")
 					if ev.CongestionWindow < 2*1200 || ev.CongestionWindow > 10001*1500 {
 						o.report("C20", "congestion window reported by a real connection is outside its bounds", "%s: cwnd %d", dirName(side), ev.CongestionWindow)
 					}
-					if ev.BytesInFlight <= ev.CongestionWindow {
-						excused = false
-					} else if !excused && ev.BytesInFlight > prevInFlight && ev.BytesInFlight > ev.CongestionWindow+1500 {
-						o.report("C20", "a real connection released new data although its bytes in flight had reached the congestion window", "%s at %v: %d bytes in flight (before: %d), congestion window %d, no probe timeout or loss since they were last below it", dirName(side), time.Duration(e.AtNS), ev.BytesInFlight, prevInFlight, ev.CongestionWindow)
-						excused = true
-					}
-					prevInFlight = ev.BytesInFlight
+					cwnd = ev.CongestionWindow
 				}
 			}
 		}
